@@ -10,6 +10,7 @@ package main
 import (
 	"encoding/json"
 	"fmt"
+	"math"
 	"strings"
 	"sync"
 	"sync/atomic"
@@ -43,9 +44,10 @@ func universe(n int) []*triple.Triple {
 		model.T(b, p, il(1)),
 		model.T(a, p, model.OP(bqlm.PT1)),
 		model.T(b, p, model.ON(c)),
-		model.T(a, W, il(2)),
+		// one group sums to exactly the largest int64; the other values are negative, so no order of additions overflows
+		model.T(a, W, il(-2)),
 		model.T(a, W, il(-3)),
-		model.T(b, W, il(5)),
+		model.T(b, W, il(math.MaxInt64)),
 		// two float64 values closer than any fixed number of decimals keeps apart: two groups, two distinct values
 		model.T(a, F, fl(-0.5)),
 		model.T(b, F, fl(-0.5000001)),
@@ -53,7 +55,7 @@ func universe(n int) []*triple.Triple {
 		model.T(a, model.PT("t", zt.In(time.FixedZone("", 3600))), il(1)),
 		model.T(b, model.PT("t", zt.In(time.UTC)), il(1)),
 		model.T(c, p, tx("1")),
-		model.T(c, W, il(7)),
+		model.T(c, W, il(-7)),
 		model.T(a, F, fl(2.0)),
 		model.T(c, p, model.ON(b)),
 	}
@@ -166,7 +168,7 @@ type kase struct {
 
 type stats struct {
 	evals, nontrivial, unspecified, rejected, merged int64
-	outcomes                                 sync.Map
+	outcomes                                         sync.Map
 }
 
 func classify(q *bqlm.Query, data []*triple.Triple) string {
